@@ -35,6 +35,8 @@ var (
 	}{
 		{refdec.MAC{0x02, 0x66, 0x66, 0x66, 0x66, 0x66}, netip.MustParseAddr("fe80::1")},
 		{refdec.MAC{0x02, 0x67, 0, 0, 0, 0x67}, netip.MustParseAddr("fe80::2")},
+		// a router that sources its advertisements from a global address (accepted and learned like the others)
+		{refdec.MAC{0x02, 0x68, 0, 0, 0, 0x68}, netip.MustParseAddr("2001:db8:1::3")},
 	}
 )
 
